@@ -1,6 +1,7 @@
 import NasimModel.Model.Wire
 import NasimModel.Model.LoaderWire
 import NasimModel.Model.GenWire
+import NasimModel.Model.LoadScen
 import NasimModel.Model.Plan
 import NasimModel.Model.Bound
 /-!
@@ -146,6 +147,14 @@ def handle (c : Cfg) (line : String) : Cfg × Option String :=
       let plan := findPlan sc
       (c, some (join ([bi (solvedBy sc plan), (plan.length : Int)] ++ plan.map (fun (i : Nat) => (i : Int)))))
     | "DOC" => (c, some (NASim.Load.docReply rest))
+    | "DOCSC" =>
+      -- the scenario the environment would run for a document: load + toScenario, as wire lines
+      match NASim.Load.parseY (rest.length + 1) rest with
+      | some (doc, []) =>
+        match NASim.Load.loadScenario doc with
+        | some sc' => (c, some ("ok ; " ++ " ; ".intercalate (NASim.Gen.scenarioLines sc')))
+        | none => (c, some "none")
+      | _ => (c, some "bad-doc")
     | "GEN" =>
       -- replies with the generated scenario and installs it as the current scenario
       match NASim.Gen.genReply rest with
